@@ -40,14 +40,14 @@ def PanicV.recoverable : PanicV → Bool
 inductive Outcome (α : Type) where
   | ok (a : α)
   | panic (v : PanicV)
-deriving Repr
+deriving Repr, DecidableEq
 
 /-- what recoverfn.Run observes: `(Raw{}, true)`, `(Raw{RecoverV: v}, false)`, or the panic goes on -/
 inductive RunResult (α : Type) where
   | done (a : α)
   | recovered (v : PanicV)
   | repanic (v : PanicV)
-deriving Repr
+deriving Repr, DecidableEq
 
 /-- recoverfn.go:22-54 -/
 def recoverRun {α : Type} (f : Outcome α) : RunResult α :=
@@ -123,14 +123,14 @@ def wrap64 (x : Int) : Int := (x + two63) % two64 - two63
 def maxAlloc : Int := 281474976710656
 
 /-- runtime.makeslice for a []byte: `len < 0 || mem > maxAlloc` panics (a runtime.Error) -/
-def makesliceFault (n : Int) : Bool := decide (n < 0) || decide (n > maxAlloc)
+def makesliceFault (n : Int) : Bool := decide (n < 0 ∨ n > maxAlloc)
 
 /-- result of a `Try…` function: value, returned error, or a runtime fault inside it -/
 inductive Try (α : Type) where
   | ok (a : α)
   | err
   | fault (why : String)
-deriving Repr
+deriving Repr, DecidableEq
 
 /-- the non-Try wrapper of the generated readers: `if err != nil { panic(IOError{…}) }` -/
 def must {α : Type} : Try α → Outcome α
@@ -147,13 +147,13 @@ def bitsByteCount (n : Int) : Int := if n % 8 = 0 then n / 8 else n / 8 + 1
     allocates `make([]byte, n)` whenever n > 0 — decode.go:316-324) -/
 def tryBits (s : St) (n : Int) : Try St :=
   if n < 0 then .err
-  else if bitsByteCount n > 0 && makesliceFault (bitsByteCount n) then .fault "makeslice"
+  else if bitsByteCount n > 0 ∧ makesliceFault (bitsByteCount n) = true then .fault "makeslice-out-of-range"
   else if n > s.left then .err
   else .ok { s with pos := s.pos + n }
 
 /-- decode.go:411 -/
 def tryUintBits (s : St) (n : Int) : Try St :=
-  if n < 0 || n > 64 then .err else tryBits s n
+  if n < 0 ∨ n > 64 then .err else tryBits s n
 
 /-- read.go:20 tryUEndian -/
 def tryU (s : St) (n : Int) : Try St :=
@@ -161,19 +161,24 @@ def tryU (s : St) (n : Int) : Try St :=
 
 /-- decode.go:575 TryBytesLen: allocates BEFORE looking at the buffer -/
 def tryBytesLen (s : St) (n : Int) : Try St :=
-  if makesliceFault n then .fault "makeslice"
+  if makesliceFault n then .fault "makeslice-out-of-range"
   else
     let nBits := wrap64 (n * 8)
     if nBits < 0 then .err            -- bitio.readFull: ErrNegativeNBits
     else if nBits > s.left then .err
     else .ok { s with pos := s.pos + nBits }
 
-/-- decode.go:555 TryBytesRange (position unchanged) -/
+/-- decode.go:555 TryBytesRange (position unchanged).
+    Quirk kept: bitio.readFull returns the number of bits NOT read together with the error
+    (bitio.go:219/231), and TryBytesRange clears the error when that number equals the request
+    (`if n == int64(nBytes)*8 { err = nil }`): when not a single bit can be read (offset at/after the
+    end, or negative) the call succeeds with zero bytes. Not a crash; reported as a by-product. -/
 def tryBytesRange (s : St) (off n : Int) : Try St :=
   if n < 0 then .err
-  else if makesliceFault n then .fault "makeslice"
+  else if makesliceFault n then .fault "makeslice-out-of-range"
   else if n = 0 then .ok s
-  else if off < 0 || off + n * 8 > s.len then .err
+  else if off < 0 ∨ off ≥ s.len then .ok s
+  else if off + n * 8 > s.len then .err
   else .ok s
 
 /-- read.go:132 tryText: checks the length against the buffer before allocating -/
@@ -205,7 +210,7 @@ def tryBitBufLen (s : St) (n : Int) : Try St :=
 
 /-- decode.go:690 TryAlignBits: `(nBits - pos % nBits) % nBits` -/
 def tryAlignBits (s : St) (n : Int) : Try St :=
-  if n = 0 then .fault "integer divide by zero" else .ok s
+  if n = 0 then .fault "integer-divide-by-zero" else .ok s
 
 /-- the primitives of the core run (harness/cmd/c06/core.go), called with an arbitrary integer -/
 inductive Prim where
